@@ -508,14 +508,44 @@ def _autoshapes(ctx, prog, S, M):
         b = row.get("basename")
         if isinstance(b, str):
             chars |= set(b) & set('&<>"\'')
-    esc = [n for n in ast.walk(bn.node) if isinstance(n, ast.Call) and (dotted(n.func) or "").endswith("escape")]
+    def _escaped_by(c_, owner, depth=0):
+        """characters a call replaces by entities: saxutils.escape (with its entity map), quoteattr, or a helper of the repository
+        that returns one of those applied to its argument; None when the call is not an escaper"""
+        fd = dotted(c_.func) or ""
+        if fd.split(".")[-1] == "escape" and not isinstance(prog.resolve(owner.module, fd), type(owner)):
+            out = {"&", "<", ">"}
+            ent = c_.args[1] if len(c_.args) > 1 else next((k.value for k in c_.keywords if k.arg == "entities"), None)
+            if ent is not None:
+                mp = prog.const(ent, owner.module, None, owner.cls)
+                if isinstance(mp, dict):
+                    out |= set(mp)
+            return out
+        if fd.split(".")[-1] == "quoteattr":
+            return {"&", "<", ">", '"'}
+        if depth > 3:
+            return None
+        from sa.inline import resolve_callee as _rc20
+
+        try:
+            rc_ = _rc20(prog, owner, c_, {})
+        except Exception:  # noqa: BLE001
+            rc_ = None
+        g_ = rc_[0] if rc_ is not None and hasattr(rc_[0], "node") else None
+        if g_ is None and fd:
+            r_ = prog.resolve(owner.module, fd)
+            g_ = r_ if hasattr(r_, "node") and hasattr(r_, "module") else None
+        if g_ is None:
+            return None
+        rets_ = [r_.value for r_ in ast.walk(g_.node) if isinstance(r_, ast.Return) and r_.value is not None]
+        if len(rets_) == 1 and isinstance(rets_[0], ast.Call):
+            return _escaped_by(rets_[0], g_, depth + 1)
+        return None
+
     covered = set()
-    for c_ in esc:
-        covered |= {"&", "<", ">"}
-        if len(c_.args) > 1:
-            mp = prog.const(c_.args[1], bn.module)
-            if isinstance(mp, dict):
-                covered |= set(mp)
+    for c_ in [n for n in ast.walk(bn.node) if isinstance(n, ast.Call)]:
+        e_ = _escaped_by(c_, bn)
+        if e_ is not None:
+            covered |= e_
     if chars <= covered:
         ctx.ok("R20.4", "AutoShapeType.basename", sample={"metacharacters_in_table": sorted(chars), "escaped": sorted(covered)})
     else:
